@@ -105,6 +105,9 @@ func contractTouches(c *Contract, prop string) bool {
 	for _, is := range c.Invs {
 		all = append(all, is...)
 	}
+	for _, ps := range c.Preserved {
+		all = append(all, ps...)
+	}
 	for _, cl := range all {
 		if has(cl.Props, prop) {
 			return true
